@@ -5,6 +5,9 @@ package main
 import (
 	"encoding/json"
 	"flag"
+	"go/ast"
+	"go/printer"
+	"sort"
 	"fmt"
 	"os"
 	"strconv"
@@ -20,6 +23,14 @@ import (
 func main() {
 	if len(os.Args) > 1 && os.Args[1] == "dump" {
 		dump(os.Args[2:])
+		return
+	}
+	if len(os.Args) > 1 && os.Args[1] == "reffuncs" {
+		reffuncs(os.Args[2:])
+		return
+	}
+	if len(os.Args) > 1 && os.Args[1] == "norm" {
+		normdump(os.Args[2:])
 		return
 	}
 	if len(os.Args) > 1 && os.Args[1] == "matrix" {
@@ -138,8 +149,18 @@ func main() {
 func dump(args []string) {
 	fs := flag.NewFlagSet("dump", flag.ExitOnError)
 	repo := fs.String("repo", "/repo", "")
+	patch := fs.String("patch", "", "")
+	src := fs.Bool("src", false, "print the (normalised) source of the files holding the functions instead")
 	fs.Parse(args)
-	p, err := engine.Load(engine.LoadOptions{RepoDir: *repo})
+	ov := map[string][]byte{}
+	if *patch != "" {
+		var err error
+		if ov, err = rules.OverlayFromPatch(*repo, *patch); err != nil {
+			fmt.Println(err)
+			os.Exit(2)
+		}
+	}
+	p, err := engine.Load(engine.LoadOptions{RepoDir: *repo, Overlay: ov})
 	if err != nil {
 		fmt.Println(err)
 		os.Exit(1)
@@ -154,6 +175,14 @@ func dump(args []string) {
 		if !match {
 			continue
 		}
+		if *src {
+			if d, ok := fn.Syntax().(*ast.FuncDecl); ok {
+				fmt.Printf("=== %s\n", fn)
+				printer.Fprint(os.Stdout, p.Fset, d)
+				fmt.Println()
+			}
+			continue
+		}
 		fi := p.Info(fn)
 		fmt.Printf("=== %s\n", fn)
 		for _, b := range fn.Blocks {
@@ -164,6 +193,68 @@ func dump(args []string) {
 				} else {
 					fmt.Printf("    %s\n", in.String())
 				}
+			}
+		}
+	}
+}
+
+// reffuncs prints the function table of the repository (the reference for normalisation).
+func reffuncs(args []string) {
+	fs := flag.NewFlagSet("reffuncs", flag.ExitOnError)
+	repo := fs.String("repo", "/repo", "")
+	fs.Parse(args)
+	p, err := engine.Load(engine.LoadOptions{RepoDir: *repo, NoNormalize: true})
+	if err != nil {
+		fmt.Println(err)
+		os.Exit(1)
+	}
+	var out []string
+	for _, pk := range p.Pkgs {
+		for _, f := range pk.Syntax {
+			for _, d := range f.Decls {
+				if fd, ok := d.(*ast.FuncDecl); ok {
+					out = append(out, engine.FuncKey(pk.PkgPath, fd))
+				}
+			}
+		}
+	}
+	sort.Strings(out)
+	fmt.Println("# functions and methods of the reference tree; calls of functions not listed here are expanded before analysis")
+	for _, l := range out {
+		fmt.Println(l)
+	}
+}
+
+// normdump prints what normalisation does to a tree (optionally with a patch as overlay).
+func normdump(args []string) {
+	fs := flag.NewFlagSet("norm", flag.ExitOnError)
+	repo := fs.String("repo", "/repo", "")
+	patch := fs.String("patch", "", "")
+	show := fs.Bool("show", false, "print the expanded files")
+	fs.Parse(args)
+	ov := map[string][]byte{}
+	if *patch != "" {
+		var err error
+		ov, err = rules.OverlayFromPatch(*repo, *patch)
+		if err != nil {
+			fmt.Println(err)
+			os.Exit(2)
+		}
+	}
+	p, err := engine.Load(engine.LoadOptions{RepoDir: *repo, Overlay: ov})
+	if err != nil {
+		fmt.Println(err)
+		os.Exit(1)
+	}
+	fmt.Println("inlined:", p.NormInlined)
+	fmt.Println("skipped:", p.NormSkipped)
+	fmt.Println("note:", p.NormNote)
+	if *show {
+		for _, pk := range p.Pkgs {
+			for i, f := range pk.Syntax {
+				_ = f
+				name := pk.CompiledGoFiles[i]
+				_ = name
 			}
 		}
 	}
